@@ -207,6 +207,16 @@ fn cmd_gen_selftest(args: &[String]) -> i32 {
                 continue;
             }
         };
+        if let jxlgen::icc::ColourSpec::Icc(spec) = &prog.colour {
+            // the embedded profile must come back byte for byte
+            let want = spec.profile(prog.gray && !prog.xyb);
+            let got = checks::common::load_chunked(&bytes, &simio::ChunkSchedule::whole(bytes.len()), None, jxl_oxide::JxlThreadPool::none()).ok().and_then(|i| i.original_icc().map(|x| x.to_vec()));
+            if got.as_deref() != Some(&want[..]) {
+                errs.entry(format!("ICC-MISMATCH style={}", spec.style)).or_insert((0, seed)).0 += 1;
+                continue;
+            }
+            *errs.entry(format!("(info) icc style {} round-trips", spec.style)).or_insert((0, seed)) = (errs.get(&format!("(info) icc style {} round-trips", spec.style)).map(|x| x.0).unwrap_or(0) + 1, seed);
+        }
         match std::panic::catch_unwind(|| decode_oneshot(&bytes)) {
             Ok(Ok(_)) => ok += 1,
             Ok(Err(e)) => errs.entry(e).or_insert((0, seed)).0 += 1,
